@@ -110,6 +110,11 @@ class SolverStub:
         if self.latency:
             dur = self.ch.choose([0.01, 0.001, 0.2, 1.5, 7.0], "solver.dur")
         plan = shims.ProcPlan(duration=dur, stdout=so, stderr=se, rc=rc)
+        if truth_first == "sat" and "f_evm_" in so:
+            # a solver killed while it prints has flushed a prefix: here everything before the first abstraction function
+            # (z3 prints functions last), i.e. an answer that looks like a complete model of the parameters
+            cut = so.index("f_evm_")
+            plan.partial_on_kill = so[: so.rfind("\n", 0, cut) + 1]
         if kind == "unknown":
             plan.stdout, plan.stderr = "unknown\n", ""
         elif kind == "hang":
